@@ -2279,17 +2279,29 @@ static int add_mapping_entry(vnaproperty_yaml_t *vymlp, int t_map,
 }
 
 /*
- * _vnaproperty_yaml_import: import properties from the given YAML document
+ * yaml_import: import properties from the given YAML node
  *   @vymlp:    common argument structure
  *   @rootptr:  address of property tree root
- *   @vp_node:  yaml node cast to void pointer
+ *   @node:     yaml node
+ *   @depth:    number of collections enclosing node
  */
-int _vnaproperty_yaml_import(vnaproperty_yaml_t *vymlp,
-	vnaproperty_t **rootptr, void *vp_node)
+static int yaml_import(vnaproperty_yaml_t *vymlp,
+	vnaproperty_t **rootptr, yaml_node_t *node, int depth)
 {
     yaml_document_t *document = vymlp->vyml_document;
-    yaml_node_t *node = vp_node;
 
+    /*
+     * An alias can make a collection contain itself, e.g. "&a [*a]".
+     * No path through a finite tree is longer than the number of nodes
+     * in the document: if we go deeper, we're going in circles.
+     */
+    if (depth > document->nodes.top - document->nodes.start) {
+	_vnaproperty_yaml_error(vymlp, VNAERR_SYNTAX,
+		"%s (line %ld) error: alias refers to a collection "
+		"that contains it",
+		vymlp->vyml_filename, node->start_mark.line + 1);
+	goto out;
+    }
     switch (node->type) {
     case YAML_SCALAR_NODE:
 	/*
@@ -2347,7 +2359,7 @@ int _vnaproperty_yaml_import(vnaproperty_yaml_t *vymlp,
 			    vymlp->vyml_filename, strerror(errno));
 		    goto out;
 		}
-		if (_vnaproperty_yaml_import(vymlp, subtree, value) == -1) {
+		if (yaml_import(vymlp, subtree, value, depth + 1) == -1) {
 		    goto out;
 		}
 	    }
@@ -2378,7 +2390,7 @@ int _vnaproperty_yaml_import(vnaproperty_yaml_t *vymlp,
 			    vymlp->vyml_filename, strerror(errno));
 		    goto out;
 		}
-		if (_vnaproperty_yaml_import(vymlp, subtree, value) == -1) {
+		if (yaml_import(vymlp, subtree, value, depth + 1) == -1) {
 		    goto out;
 		}
 	    }
@@ -2391,6 +2403,18 @@ int _vnaproperty_yaml_import(vnaproperty_yaml_t *vymlp,
 
 out:
     return -1;
+}
+
+/*
+ * _vnaproperty_yaml_import: import properties from the given YAML document
+ *   @vymlp:    common argument structure
+ *   @rootptr:  address of property tree root
+ *   @vp_node:  yaml node cast to void pointer
+ */
+int _vnaproperty_yaml_import(vnaproperty_yaml_t *vymlp,
+	vnaproperty_t **rootptr, void *vp_node)
+{
+    return yaml_import(vymlp, rootptr, vp_node, 0);
 }
 
 /*
